@@ -19,8 +19,8 @@ RULE = ("two real dilated wormholes (Noise stand-in) run a random application sc
         "makes kills land mid-frame. Non-trivial = at least one effective kill and one delivered write; "
         "distinct = scheduler decision traces.")
 ASSUMPTIONS = ["Noise stand-in (spec-conformant NNpsk0)", "bounded progress: 600 virtual seconds after the last kill"]
-FLOORS = {"quick": {"kills": 250, "writes_delivered": 2000, "complete": 300, "app_pauses": 100, "app_resumes_while_offline": 8, "false_factories": 40, "calls_from_inside_protocol_callbacks": 300},
-          "thorough": {"kills": 8000, "writes_delivered": 60000, "complete": 8000, "app_pauses": 3000, "app_resumes_while_offline": 250, "false_factories": 1000, "calls_from_inside_protocol_callbacks": 8000}}
+FLOORS = {"quick": {"kills": 250, "writes_delivered": 2000, "complete": 300, "app_pauses": 100, "app_resumes_while_offline": 8, "false_factories": 40, "calls_from_inside_protocol_callbacks": 300, "bursts_paused_from_inside_dataReceived": 15},
+          "thorough": {"kills": 8000, "writes_delivered": 60000, "complete": 8000, "app_pauses": 3000, "app_resumes_while_offline": 250, "false_factories": 1000, "calls_from_inside_protocol_callbacks": 8000, "bursts_paused_from_inside_dataReceived": 400}}
 
 
 def cases(tier, seed, prep=None):
@@ -41,6 +41,8 @@ def cases(tier, seed, prep=None):
     # line, a flush marker): a write made from inside pauseProducing(), i.e. from inside the write that filled the buffer
     for i in range(60 if q else 1800):
         out.append({"kind": "random", "seed": base + 95000 + i, "pause_writer": True, "nkills": [4, 6, 8][i % 3]})
+    for i in range(24 if q else 700):
+        out.append({"kind": "burst-pause", "seed": base + 97000 + i, "dir": "AB"[i % 2], "n": [2, 3, 5, 9][i % 4], "then_close": i % 3 == 0})
     bases = range(3) if q else range(20)
     for b in bases:
         for k in range(60, 420, 6 if q else 1):
@@ -56,7 +58,60 @@ def cases(tier, seed, prep=None):
     return out
 
 
+def run_burst_pause(spec):
+    """directed: several records reach the receiver in one read; its application pauses from inside the first
+    dataReceived() and resumes later, while the peer stays silent (no pings, no further writes): everything that had
+    arrived must be handed over once reading is allowed again - nothing further will come along to shake it loose"""
+    world = World(spec["seed"])
+    rng = world.work_rng
+    dp = DilatedPair(world, ping_interval=None)
+    drv = ScriptDriver(dp, rng, names=("p0",), max_opens=0, max_writes=0, late_listen=0.0, close_prob=0.0)
+    drv.budget["open"] = {"A": 0, "B": 0}
+    sch = Scheduler(world, drv, strategy="random", chunking="whole")
+    sch.run(3000, until=dp.both_connected)
+    src, dst = spec["dir"], ("B" if spec["dir"] == "A" else "A")
+    if "p0" not in drv.factories[dst]:
+        drv.listen(dst, "p0")
+    rec = drv.open(src, "p0")
+    sch.run(1500, until=lambda: rec["proto"] is not None and bool(drv.factories[dst]["p0"].built))
+    if rec["proto"] is None or not drv.factories[dst]["p0"].built:
+        world.finish()
+        return {"inconclusive": "subchannel did not open", "violations": []}
+    q = drv.factories[dst]["p0"].built[0][1]
+    sch.drain(2.0, 800)                      # acks of the open have settled: nothing is in flight
+    state = {"paused": False}
+
+    def react(p_, kind):
+        if kind == "data" and not state["paused"]:
+            state["paused"] = True
+            p_.transport.pauseProducing()
+    q.react = react
+    n = spec["n"]
+    for i in range(n):                       # one reactor turn: the records travel in one chunk
+        drv.write(rec["proto"], b"burst:%d:" % i + rng.randbytes(rng.choice([1, 30, 500])))
+    if spec.get("then_close"):
+        drv.close(rec["proto"])
+    sch.drain(3.0, 3000)
+    got_before = len([e for e in q.events if e[0] == "data"])
+    q.transport.resumeProducing()
+    sch.drain(20.0, 3000)
+    got = [e[1] for e in q.events if e[0] == "data"]
+    viol = []
+    if got != rec["proto"].sent:
+        viol.append({"key": "C10/stream/arrived-but-withheld-after-resume", "msg": "%d records written in one turn; the receiver paused inside the first dataReceived() (%d handed over by then) and resumed later: %d of %d delivered 20 virtual s after the resume, the peer being silent" % (
+            n, got_before, len(got), n), "witness": {"spec": spec, "events": [e[0] for e in q.events][:12]}})
+    if spec.get("then_close") and "lost" not in [e[0] for e in q.events]:
+        viol.append({"key": "C10/close-never-arrives/withheld-after-resume", "msg": "the CLOSE that followed the burst was not handed over after the resume", "witness": {"spec": spec}})
+    dp.a.close()
+    dp.b.close()
+    sch.drain(120.0, 6000, until=lambda: dp.a.closed and dp.b.closed)
+    world.finish()
+    return {"violations": viol, "nontrivial": ["burst-pause", spec["seed"], n, got_before], "counters": {"bursts_paused_from_inside_dataReceived": int(state["paused"]), "writes_delivered": len(got), "complete": int(not viol)}}
+
+
 def run_case(spec):
+    if spec["kind"] == "burst-pause":
+        return run_burst_pause(spec)
     world = World(spec["seed"])
     rng = world.work_rng
     dp = DilatedPair(world, ping_interval=rng.choice([None, 5.0]))
